@@ -1,5 +1,5 @@
 P = {
-    "gens": ["C04bundle", "C04tcpclmru", "C01parse"],
+    "gens": ["C04bundle", "C04tcpclmru", "C01parse", "C04late"],
     "theorems": ["C04_bundle_terminates_blocks", "C04_bundle_terminates_pairs", "C04_bundle_progress",
                  "C04_raw_alloc_bounded", "C04_raw_alloc_covered", "C04_sender_mru"],
     "rule": "C04bundle: valid bundles (incl. administrative records with status reports) with every CBOR head - found by a "
@@ -8,7 +8,17 @@ P = {
             "each input decoded (ParseBundle + AdministrativeRecord) in a CHILD process with a 6 GiB address-space limit and "
             "20 s per input; observables: ok/err/panic/died/timeout and the TotalAlloc delta, which must stay below "
             "64*len + 4 MiB; accept/reject compared with the model. C04tcpclmru: NextSegment with peer MRUs over the boundary "
-            "values in child processes. C01parse: mutants through the parser in-process (panic = failure).",
+            "values in child processes. C01parse: mutants through the parser in-process (panic = failure). "
+            "Multiplicative-overflow probes (harness/c04probes.go) at every length / count position of C04bundle (once per role of "
+            "the head and group of 12 bundles), C04auxcbor, C04tcpclmsg (relative to the width of the field) and the MTCP frame "
+            "head: floor(k*2^w/s)+1 for element sizes s = 2..8, k = 1..s-1, and floor(2^w/s)+1, floor(2^(w-1)/s)+1 for s = 9..64, "
+            "128, 256 (C04bundle quick: s = 10,12,14,16,24,...,64,128,256). "
+            "C04late (child process per scenario; observable: the process survives, result classes, TotalAlloc): mtcp = a real "
+            "MTCPServer on loopback TCP, 1-3 established connections sending valid frames, keep-alives, frames with boundary / "
+            "probe length heads, garbage, truncated frames AFTER MTCPServer.Close() returned, WHILE it runs, or with the handler "
+            "blocked on handing up a bundle when the server is closed (and the same on a running server); firstuse = the first "
+            "decoding in a fresh process done by 2..16 goroutines at once, each followed by the node's lifetime check / "
+            "administrative-record extraction on the decoded value (12 processes in quick, 400 in thorough)",
     "assumptions": ["regexp, encoding/json, xz and websocket framing are library code: exercised, not modelled"],
     "trusted_base": ["runtime.MemStats.TotalAlloc as the measure of allocation"],
     "level_text": "Totality is by construction (Gallina); termination is shown not to be an artefact of fuel; the single "
